@@ -18,6 +18,7 @@ REQUIRED = ['op:+', 'op:-', 'op:&', 'op:|', 'op:^', 'op:neg', 'op:~', 'op:*', 'o
 NSHARDS = 13
 SAN = {'quick': (3, 6), 'thorough': (3, 3)}
 S3_EVERY = 50
+S7 = ('thorough',)          # the repository's own suite re-run under S1/S3 as a second workload
 
 def selftest():
     assert m_bin('+', (15, 4), (1, 1)) == (0, 4) and m_bin('-', (0, 4), (1, 9)) == (511, 9) and m_neg((1, 4)) == (15, 4)
